@@ -291,10 +291,167 @@ Qed.
 Theorem C03_at_most_one_more_tick tr s : run init tr = Some s -> ticks_after_flag false tr <= 1.
 Proof. intros H. apply (ticks_unflagged tr init s); [apply inv_init|apply inv2_init|exact H]. Qed.
 
+(* ---------- ... and at most two more loop delays ---------- *)
+Definition finp (c : cpc) : bool :=
+  match c with
+  | CShut0 KFinally | CShut1 KFinally | CShut2 KFinally | CShut3 KFinally | CShut4 KFinally
+  | CJoin _ | CFinScale | CFinSave0 | CFinSave1 | CDone | CJoinClient | CMainExit | CMainDone => true
+  | _ => false
+  end.
+Definition potc2 (rn : bool) (e : nat -> bool) (c : cpc) : nat :=
+  if negb rn then (if finp c then 0 else 1) else
+  match c with
+  | CPoll k any => if any || flagged_from e k then 1 else 2
+  | CAfterPoll | CAfterUptime => 2
+  | _ => if finp c then 0 else 1
+  end.
+Definition pot2 (s : st) : nat := potc2 (running s) (ex s) (cp s).
+
+Lemma potc2_le2 rn e c : potc2 rn e c <= 2.
+Proof.
+  unfold potc2. destruct rn; cbn [negb]; [|destruct (finp c); lia].
+  destruct c; repeat match goal with |- context [if ?b then _ else _] => destruct b end; lia.
+Qed.
+Lemma potc2_mono rn e e' c : (forall j, e j = true -> e' j = true) -> potc2 rn e' c <= potc2 rn e c.
+Proof.
+  intros M. unfold potc2. destruct rn; cbn [negb]; [|lia]. destruct c; try lia.
+  destruct any; cbn [orb]; [lia|]. destruct (flagged_from e k) eqn:F; [rewrite (flagged_from_mono _ _ _ M F); lia|].
+  destruct (flagged_from e' k); lia.
+Qed.
+Lemma potc2_poll rn e : flagged_from e 0 = true -> potc2 rn e poll_pc = 1.
+Proof.
+  intros F. unfold potc2, Threads.poll_pc.
+  destruct (n =? 0) eqn:E; [apply Nat.eqb_eq in E; rewrite flagged_from_ge in F by lia; discriminate|].
+  destruct rn; cbn; [rewrite F|]; reflexivity.
+Qed.
+Lemma potc2_drain rn e : flagged_from e 0 = true -> potc2 rn e drain_pc = 1.
+Proof. intros F. unfold Threads.drain_pc. destruct with_web; [unfold potc2; destruct rn; reflexivity|apply potc2_poll; exact F]. Qed.
+Lemma potc2_ret_loop rn e k : flagged_from e 0 = true -> loop_k k = true -> potc2 rn e (ret_cont k) = 1.
+Proof. intros F L. destruct k; try discriminate L; apply potc2_drain; exact F. Qed.
+Lemma potc2_tp rn e ok ret k : flagged_from e 0 = true -> loop_k k = true -> potc2 rn e (tp_return ok ret k) = 1.
+Proof.
+  intros F L. unfold Threads.tp_return. destruct ret as [ap|]; [destruct ok|]; try (apply potc2_ret_loop; assumption).
+  unfold potc2. destruct rn; reflexivity.
+Qed.
+(* a shutdown returns with the loop flag lowered: one more delay, or none when it was the final one *)
+Lemma potc2_ret_shut e k : shut_k k = true -> potc2 false e (ret_cont k) = (if finp (CShut0 k) then 0 else 1).
+Proof.
+  destruct k; try discriminate; intros _; unfold potc2, Threads.ret_cont, Threads.poll_pc, join_pc; cbn;
+    destruct (n =? 0); reflexivity.
+Qed.
+
+Lemma poll_pot2 rn e k any :
+  potc2 rn e (if S k =? n then (if any || e k then CShut0 KAfterPoll else CAfterPoll) else CPoll (S k) (any || e k)) <= potc2 rn e (CPoll k any).
+Proof.
+  destruct rn; [|destruct (S k =? n); [destruct (any || e k)|]; unfold potc2; cbn [negb finp]; lia].
+  destruct any; [destruct (S k =? n); unfold potc2; cbn [negb orb finp]; lia|].
+  cbn [orb]. destruct (flagged_from e k) eqn:F.
+  2: { assert (P2 : potc2 true e (CPoll k false) = 2) by (unfold potc2; cbn [negb orb]; rewrite F; reflexivity).
+       rewrite P2. apply potc2_le2. }
+  assert (P1 : potc2 true e (CPoll k false) = 1) by (unfold potc2; cbn [negb orb]; rewrite F; reflexivity).
+  rewrite P1.
+  assert (Hk : k < n) by (destruct (Nat.lt_ge_cases k n); [assumption|rewrite flagged_from_ge in F by assumption; discriminate]).
+  rewrite (flagged_from_S _ _ Hk) in F.
+  destruct (S k =? n) eqn:E.
+  - apply Nat.eqb_eq in E. rewrite flagged_from_ge, orb_false_r in F by lia. rewrite F. unfold potc2. cbn [negb finp]. lia.
+  - unfold potc2. cbn [negb]. rewrite F. lia.
+Qed.
+
+Definition is_ctl_sleep (t : tid) (l : label) : nat := match t, l with TCtl, LSleep => 1 | _, _ => 0 end.
+
+Lemma ctl_pot2 s l s' : Inv2 s -> flagged_from (ex s) 0 = true -> ctl_step s l = Some s' ->
+  pot2 s' + is_ctl_sleep TCtl l <= pot2 s.
+Proof.
+  intros (_ & _ & _ & _ & _ & _ & J7 & J8 & J9 & J10) F H.
+  assert (Ex : ex s' = ex s).
+  { unfold Threads.ctl_step in H.
+    destruct (cp s) eqn:Hc; destruct l; try discriminate;
+      repeat match type of H with
+             | context [match ?x with _ => _ end] => destruct x eqn:?; try discriminate
+             end;
+      inversion H; subst; reflexivity. }
+  unfold pot2. rewrite Ex.
+  pose proof (potc2_drain (running s) (ex s) F) as PD.
+  pose proof (potc2_poll (running s) (ex s) F) as PP.
+  unfold Threads.ctl_step in H.
+  destruct (cp s) eqn:Hc; destruct l; try discriminate;
+    repeat match type of H with
+           | context [match ?x with _ => _ end] => destruct x eqn:?; try discriminate
+           end;
+    inversion H; subst; clear H;
+    unfold exc_goto, ctl, set_cp, set_res, set_misc, set_pp, set_bp, after_pool, start_pool; cbn [cp running ex is_ctl_sleep];
+    cbn [loop_pc_ok shut_pc_ok] in J10, J8;
+    try rewrite (potc2_ret_loop _ _ _ F J10); try rewrite (potc2_tp _ _ _ _ _ F J10); try rewrite (potc2_ret_shut _ _ J8); rewrite ?PD, ?PP;
+    try (unfold potc2; destruct (running s); cbn; lia);
+    try (unfold potc2; destruct (running s); cbn; repeat match goal with |- context [if ?b then _ else _] => destruct b end; lia);
+    try (rewrite Hc; lia).
+  all: try (destruct k; try discriminate J8; unfold potc2; destruct (running s); cbn; lia).
+  all: rewrite ?Nat.add_0_r;
+    repeat match goal with Hx : (_ && _) = true |- _ => apply andb_true_iff in Hx; destruct Hx end.
+  all: try match goal with Hn : (S ?k =? n) = _ |- _ <= potc2 ?rn ?e (CPoll ?k ?any) =>
+         pose proof (poll_pot2 rn e k any) as PPt; rewrite Hn in PPt; cbn [orb] in PPt end.
+  all: repeat match goal with Hx : (_ =? _) = true |- _ => apply Nat.eqb_eq in Hx; subst
+                         | Hx : Bool.eqb _ _ = true |- _ => apply eqb_prop in Hx; subst end.
+  all: try (repeat match goal with Hx : (_ || _) = _ |- _ => rewrite Hx in PPt end; exact PPt).
+Qed.
+
+Lemma step_pot2 s t l s' : Inv2 s -> flagged_from (ex s) 0 = true -> step s t l = Some s' ->
+  pot2 s' + is_ctl_sleep t l <= pot2 s.
+Proof.
+  intros HJ F H. destruct t as [|i|j| |].
+  - unfold Threads.step in H. apply (ctl_pot2 _ _ _ HJ F H).
+  - unfold Threads.step in H. destruct (i <? n); [|discriminate].
+    destruct (bg_ex _ _ _ _ H) as (Ec & Er & _ & M & _).
+    unfold pot2. rewrite Ec, Er. cbn [is_ctl_sleep]. rewrite Nat.add_0_r. apply potc2_mono. exact M.
+  - destruct (other_frame _ _ _ _ H) as (Ec & Er & _ & Ex); try discriminate. unfold pot2. rewrite Ec, Er, Ex. cbn [is_ctl_sleep]. lia.
+  - destruct (other_frame _ _ _ _ H) as (Ec & Er & _ & Ex); try discriminate. unfold pot2. rewrite Ec, Er, Ex. cbn [is_ctl_sleep]. lia.
+  - destruct (other_frame _ _ _ _ H) as (Ec & Er & _ & Ex); try discriminate. unfold pot2. rewrite Ec, Er, Ex. cbn [is_ctl_sleep]. lia.
+Qed.
+
+Lemma sleeps_cons f t l r :
+  sleeps_after_flag f ((t, l) :: r) =
+  match t, l with
+  | TBg _, LSet (EExc _) => sleeps_after_flag true r
+  | TCtl, LSleep => (if f then 1 else 0) + sleeps_after_flag f r
+  | _, _ => sleeps_after_flag f r
+  end.
+Proof. destruct t; destruct l; try reflexivity; destruct e; reflexivity. Qed.
+
+Lemma sleeps_flagged : forall tr s s', Inv s -> Inv2 s -> flagged_from (ex s) 0 = true -> run s tr = Some s' ->
+  sleeps_after_flag true tr <= pot2 s.
+Proof.
+  induction tr as [|[t l] tr IH]; intros s s' HI HJ F H; [cbn; lia|].
+  cbn [Threads.run] in H. destruct (step s t l) as [s1|] eqn:E; [|discriminate].
+  pose proof (inv_step _ _ _ _ _ _ _ _ _ HI E) as HI1.
+  pose proof (inv2_step _ _ _ _ _ _ _ _ _ HI HJ E) as HJ1.
+  destruct (step_pot _ _ _ _ HJ F E) as (F1 & _).
+  pose proof (step_pot2 _ _ _ _ HJ F E) as P.
+  specialize (IH s1 s' HI1 HJ1 F1 H). rewrite sleeps_cons.
+  destruct t; destruct l; cbn [is_ctl_sleep] in P; try lia; destruct e; lia.
+Qed.
+
+Theorem C03_at_most_two_more_delays tr s : run init tr = Some s -> sleeps_after_flag false tr <= 2.
+Proof.
+  assert (G : forall tr s s', Inv s -> Inv2 s -> run s tr = Some s' -> sleeps_after_flag false tr <= 2).
+  { induction tr0 as [|[t l] tr0 IH]; intros s0 s1 HI HJ H; [cbn; lia|].
+    cbn [Threads.run] in H. destruct (step s0 t l) as [s2|] eqn:E; [|discriminate].
+    pose proof (inv_step _ _ _ _ _ _ _ _ _ HI E) as HI1.
+    pose proof (inv2_step _ _ _ _ _ _ _ _ _ HI HJ E) as HJ1.
+    rewrite sleeps_cons.
+    assert (D : sleeps_after_flag false tr0 <= 2) by (apply (IH s2 s1 HI1 HJ1 H)).
+    destruct t as [|i|j| |]; destruct l; try exact D; try (cbn; exact D).
+    destruct e; try exact D.
+    unfold Threads.step in E. destruct (i <? n) eqn:Hi; [|discriminate]. apply Nat.ltb_lt in Hi.
+    destruct (bg_ex _ _ _ _ E) as (_ & _ & _ & _ & Hex).
+    pose proof (flagged_intro _ _ Hi Hex) as F1.
+    pose proof (sleeps_flagged tr0 s2 s1 HI1 HJ1 F1 H) as P. pose proof (potc2_le2 (running s2) (ex s2) (cp s2)). unfold pot2 in P. lia. }
+  intros H. apply (G tr init s); [apply inv_init|apply inv2_init|exact H].
+Qed.
+
 Theorem C03_monitor_holds tr s : run init tr = Some s -> C03_ok tr = true.
 Proof.
   intros H. unfold C03_ok. rewrite (C03_control_failure_propagates _ _ H), andb_true_r.
-  apply Nat.leb_le. apply (C03_at_most_one_more_tick _ _ H).
+  apply andb_true_iff. split; apply Nat.leb_le; [apply (C03_at_most_one_more_tick _ _ H)|apply (C03_at_most_two_more_delays _ _ H)].
 Qed.
 
 (* state form: a flagged failure and a control thread that has begun a tick since: it is past the loop or
